@@ -46,6 +46,9 @@ type StructCheck struct {
 	Forbidden []string `json:"forbidden"` // no-calls: forbidden callee prefixes ("os.", "time.Now", ...)
 	Writers   []string `json:"writers"`   // writes-only-in: functions (name substrings) allowed to write the type's fields
 	Benign    []string `json:"benign"`    // writes-only-in: callees (name substrings) a field address may be passed to
+	Callee    string   `json:"callee"`    // same-arg: callee name suffix
+	ArgIndex  int      `json:"arg_index"` // same-arg: which argument
+	Expect    string   `json:"expect"`    // same-arg: canonical form every caller must pass, e.g. "(> (len listeners) 0)"
 }
 
 type Finding struct {
@@ -675,6 +678,10 @@ func runStructChecks(w *engine.World, checks []StructCheck) []structResult {
 			out = append(out, writesOnlyIn(w, c)...)
 			continue
 		}
+		if c.Kind == "same-arg" {
+			out = append(out, sameArg(w, c)...)
+			continue
+		}
 		pkg := w.PPkgs[c.Pkg]
 		if pkg == nil {
 			out = append(out, structResult{fmt.Sprintf("struct/%s.%s/%s", c.Pkg, c.Type, c.Kind), false, "package not loaded"})
@@ -866,6 +873,113 @@ func writesOnlyIn(w *engine.World, c StructCheck) []structResult {
 			out = append(out, structResult{name, false, "written outside its owners: " + strings.Join(bad[i], "; ")})
 		} else {
 			out = append(out, structResult{name, nfa > 0, "no access to the type found"})
+		}
+	}
+	return out
+}
+
+// sameArg: every listed caller passes, as the given argument of the callee, the same function of its own
+// parameters (canonical form compared textually). Used where two code paths must derive a layout or key
+// from the same inputs in the same way (e.g. compile and cache-load computing the module-context layout).
+func sameArg(w *engine.World, c StructCheck) []structResult {
+	short := c.Pkg[strings.LastIndex(c.Pkg, "/")+1:]
+	sp := w.Pkgs[c.Pkg]
+	if sp == nil {
+		return []structResult{{"struct/" + short + "/same-arg", false, "package not loaded"}}
+	}
+	var canon func(v ssa.Value, depth int) string
+	canon = func(v ssa.Value, depth int) string {
+		if depth > 8 {
+			return "..."
+		}
+		switch x := v.(type) {
+		case *ssa.Const:
+			return x.Value.ExactString()
+		case *ssa.Parameter:
+			return x.Name()
+		case *ssa.UnOp:
+			if x.Op == token.MUL {
+				if a, ok := x.X.(*ssa.Alloc); ok {
+					// a local / parameter cell of the naive form: follow its single definition
+					var stores []*ssa.Store
+					if a.Referrers() != nil {
+						for _, r := range *a.Referrers() {
+							if st, ok := r.(*ssa.Store); ok && st.Addr == a {
+								stores = append(stores, st)
+							}
+						}
+					}
+					if len(stores) == 1 {
+						return canon(stores[0].Val, depth+1)
+					}
+					return "several-definitions(" + a.Comment + ")"
+				}
+			}
+			return "(" + x.Op.String() + " " + canon(x.X, depth+1) + ")"
+		case *ssa.BinOp:
+			return "(" + x.Op.String() + " " + canon(x.X, depth+1) + " " + canon(x.Y, depth+1) + ")"
+		case *ssa.IndexAddr:
+			return "(index " + canon(x.X, depth+1) + " " + canon(x.Index, depth+1) + ")"
+		case *ssa.Convert:
+			return canon(x.X, depth+1)
+		case *ssa.FieldAddr:
+			pt := x.X.Type().Underlying().(*types.Pointer).Elem().Underlying().(*types.Struct)
+			return "(field " + pt.Field(x.Field).Name() + " " + canon(x.X, depth+1) + ")"
+		case *ssa.Call:
+			if cal := x.Call.StaticCallee(); cal != nil {
+				as := []string{"call", cal.Name()}
+				for _, a := range x.Call.Args {
+					as = append(as, canon(a, depth+1))
+				}
+				return "(" + strings.Join(as, " ") + ")"
+			}
+			if b, ok := x.Call.Value.(*ssa.Builtin); ok {
+				as := []string{b.Name()}
+				for _, a := range x.Call.Args {
+					as = append(as, canon(a, depth+1))
+				}
+				return "(" + strings.Join(as, " ") + ")"
+			}
+		}
+		return "?" + v.Name()
+	}
+	var out []structResult
+	for _, caller := range c.Writers {
+		cn := c.Callee
+		if i := strings.LastIndex(cn, "/"); i >= 0 {
+			cn = cn[i+1:]
+		}
+		name := fmt.Sprintf("struct/%s/same-arg:%s@%s", short, strings.Trim(cn, "()*"), caller)
+		found := 0
+		why := ""
+		for fn := range ssautil.AllFunctions(w.Prog) {
+			if fn.Pkg != sp || !strings.HasSuffix(engine.ShortFn(fn), caller) {
+				continue
+			}
+			for _, b := range fn.Blocks {
+				for _, in := range b.Instrs {
+					cc, ok := in.(ssa.CallInstruction)
+					if !ok {
+						continue
+					}
+					cal := cc.Common().StaticCallee()
+					if cal == nil || !strings.HasSuffix(cal.String(), c.Callee) || c.ArgIndex >= len(cc.Common().Args) {
+						continue
+					}
+					found++
+					if got := canon(cc.Common().Args[c.ArgIndex], 0); !strings.Contains(got, c.Expect) {
+						why = fmt.Sprintf("%s passes %s, which is not derived from %s", engine.ShortFn(fn), got, c.Expect)
+					}
+				}
+			}
+		}
+		switch {
+		case why != "":
+			out = append(out, structResult{name, false, why})
+		case found == 0:
+			out = append(out, structResult{name, false, "no call of " + c.Callee + " found in " + caller})
+		default:
+			out = append(out, structResult{name, true, ""})
 		}
 	}
 	return out
